@@ -4,27 +4,44 @@
 
    Vocabulary (defined in Proofs/HttpSeg.v, Proofs/HttpSegChunk.v):
      wf s            invariant of the parser state between two feed_data calls (C03_wf_spelled)
-     tail_ok lim s   the partial chunk-size / trailer line buffered in s is not longer than
-                     max_line_size / max_field_size (the re-check the next call makes first)
+     tail_ok lim s   the partial chunk-size / trailer line buffered in s - not counting a CR that ends
+                     it - is not longer than max_line_size / max_field_size (the re-check the next
+                     call makes first)
      prepend lo r    ROk l |-> ROk (lo ++ l); exceptions and oracle questions unchanged
      obs (s, a, r)   (Some s if r is a normal return else None, a, r): after an exception the
                      parser object is discarded, only messages and the exception are observable
      consumed ...    the reads a segmented run consumes (up to and including the first failing one)
-     boundaries_ok   tail_ok holds in every state at a read boundary that is followed by a read
+     line_end_ok lim s b   tail_ok lim s, or the bytes b that follow contain the end (CRLF) of the
+                     partial line buffered in s
+     boundaries_ok   line_end_ok holds in every state at a read boundary that is followed by a read
+                     (b = the rest of the consumed reads)
+     noticed_earlier lim split one   the segmented run `split` ended with LineTooLong raised by the
+                     re-check of an over-long buffered partial chunk-size / trailer line whose end
+                     has not arrived, while the one-read run `one` of the same bytes, with the same
+                     messages, raised TransferEncodingError (bare LF in that line) or returned
+                     normally still buffering the over-long line (a state that fails tail_ok)
 
    Summary.  ACCEPT direction: proved in full, for all limits, oracles, states and streams
    (C03_split_accept, C03_seg_accept, C03_seg_indep_accept): a segmentation whose reads all return
    normally yields exactly the one-read result: same final state, same messages, fields, body
    bytes, chunk boundaries, eof/exception marks, same unconsumed bytes.  Consequently one-read
    rejection implies rejection of every segmentation (C03_seg_oneshot_reject).
-   REJECT direction (a rejected segmentation is rejected in one read): FALSE of the faithful model,
-   three witnesses (the C03_reject_direction_refuted theorems), all replayed on the implementation; what holds
-   is C03_seg_consumed_obs_partial (under boundaries_ok the segmented run is observably equal -
-   same exception, same messages - to one read of the bytes consumed so far) and
-   C03_seg_reject_partial (if moreover the failing read fails on a complete line, to one read of
-   the whole stream); C03_bare_lf_doomed explains witness (b). *)
+   A line of exactly the configured limit is treated alike wherever the read boundaries fall, also
+   between its CR and LF (C03_cr_boundary_fixed: the former witnesses of finding
+   C03-cr-boundary-line-limit, repaired).
+   REJECT direction (a rejected segmentation is rejected in one read): a rejection may be NOTICED
+   EARLIER by a segmented run - C03_reject_direction_refuted_bare_lf (a bare LF in a partial line)
+   and C03_tail_recheck_noticed_earlier (an over-long partial chunk-size line) - and in both cases
+   no continuation of the one-read run is ever accepted (C03_bare_lf_doomed; the over-long buffered
+   line fails the re-check of the next call).  In full (no hypothesis on the states
+   at the read boundaries): C03_split and C03_seg_consumed_obs - the segmented run is observably
+   equal (same exception, same messages) to one read of the bytes consumed so far, or it noticed
+   the rejection of an over-long chunk line earlier (noticed_earlier).  With equality:
+   C03_seg_consumed_obs_partial (under boundaries_ok) and C03_seg_reject_partial (if moreover the
+   failing read fails on a complete line: equal to one read of the whole stream). *)
 From AV Require Import Lib.Base Lib.BytesX Generated.HttpGen Model.Http
-  Proofs.HttpSegBase Proofs.HttpSegChunk Proofs.HttpSeg Proofs.HttpSegDoom Proofs.HttpSegRej Proofs.HttpSegEx.
+  Proofs.HttpSegBase Proofs.HttpSegChunk Proofs.HttpSeg Proofs.HttpSegDoom Proofs.HttpSegRej Proofs.HttpSegFull
+  Proofs.HttpSegEx.
 Open Scope N_scope.
 
 (* ------------------------------------------------------------------ 1. invariant *)
@@ -104,29 +121,49 @@ Theorem C03_split_accept : forall lim o s a b acc s1 acc1 lo1 s2 acc2 lo2,
 Proof. exact feed_split_accept. Qed.
 Print Assumptions C03_split_accept.
 
-(* including the second read's exceptions and oracle questions.  The version without `tail_ok` is
-   false: C03_split_refuted_chunk_tail_recheck. *)
+(* including the second read's exceptions and oracle questions, with NO hypothesis on the state
+   between the reads: either one read of a ++ b is observably equal to the two reads, or the second
+   read raised LineTooLong on the over-long partial chunk-size / trailer line buffered by the first
+   (the length re-check the payload parser makes when a call starts) although the end of that line
+   has not arrived: then one read of a ++ b raises TransferEncodingError (a bare LF in that line) or
+   returns normally with the same messages, still buffering the over-long line, so that whatever
+   follows is rejected as well - the rejection was only noticed earlier. *)
+Theorem C03_split : forall lim o s a b acc s1 acc1 lo1,
+  wf s ->
+  feed lim o s a acc = (s1, acc1, ROk lo1) ->
+  obs (feed lim o s (a ++ b) acc) =
+  obs (let '(s2, acc2, r) := feed lim o s1 b acc1 in (s2, acc2, prepend lo1 r)) \/
+  (tail_ok lim s1 = false /\
+   (exists s2, feed lim o s1 b acc1 = (s2, ev_err ELineTooLong acc1, RErr ELineTooLong)) /\
+   (exists p', payload s1 = Some p' /\ find_crlf (ctail p' ++ b) = None) /\
+   ((exists s3, feed lim o s (a ++ b) acc = (s3, ev_err ETransferEncoding acc1, RErr ETransferEncoding)) \/
+    (exists s3, feed lim o s (a ++ b) acc = (s3, acc1, ROk []) /\ tail_ok lim s3 = false /\ wf s3))).
+Proof. exact feed_split_full. Qed.
+Print Assumptions C03_split.
+
+(* with equality, when the buffered partial line passes the re-check or its end is in b *)
 Theorem C03_split_partial : forall lim o s a b acc s1 acc1 lo1,
   wf s ->
   feed lim o s a acc = (s1, acc1, ROk lo1) ->
-  tail_ok lim s1 = true ->
+  line_end_ok lim s1 b = true ->
   obs (feed lim o s (a ++ b) acc) =
   obs (let '(s2, acc2, r) := feed lim o s1 b acc1 in (s2, acc2, prepend lo1 r)).
-Proof. exact feed_split. Qed.
+Proof. exact feed_split_weak. Qed.
 Print Assumptions C03_split_partial.
 
-(* max_line_size = 20, chunk-size line "1;eeeeeeeeeeeeeeeeee" (20 bytes), cut between its CR and LF:
-   first read returns normally, the second raises LineTooLong (the buffered 21 bytes include the
-   CR), one read of the same bytes delivers the complete message *)
-Theorem C03_split_refuted_chunk_tail_recheck :
-  first_then lim_c wc_1 wc_2 =
+(* max_line_size = 20: the first read ends inside a chunk-size line that is already 25 bytes long;
+   the next read ("ee", still no end of line) raises LineTooLong on the buffered part; one read of
+   the same bytes returns normally, still waiting for the end of the line, in a state that fails
+   tail_ok: whatever follows is rejected by the re-check of the next call *)
+Example C03_tail_recheck_noticed_earlier :
+  first_then lim_c wd_1 wd_2 =
     (ROk [], false,
-     Some (PChunked CSize, [49; 59; 101; 101; 101; 101; 101; 101; 101; 101; 101; 101; 101; 101; 101; 101; 101; 101; 101; 101; 13]),
+     Some (PChunked CSize, [49; 59; 101; 101; 101; 101; 101; 101; 101; 101; 101; 101; 101; 101; 101; 101; 101; 101; 101; 101; 101; 101; 101; 101; 101]),
      (RErr ELineTooLong, [([80; 79; 83; 84], [47], [], [], false, Some ELineTooLong)])) /\
-  digest (feed lim_c [] init (wc_1 ++ wc_2) []) =
-    (ROk [], [([80; 79; 83; 84], [47], [120], [1], true, None)]).
-Proof. exact refute_chunk_tail_recheck. Qed.
-Print Assumptions C03_split_refuted_chunk_tail_recheck.
+  (let '(s, a, r) := feed lim_c [] init (wd_1 ++ wd_2) [] in (r, tail_ok lim_c s, digest (s, a, r))) =
+    (ROk [], false, (ROk [], [([80; 79; 83; 84], [47], [], [], false, None)])).
+Proof. exact ex_tail_recheck_early. Qed.
+Print Assumptions C03_tail_recheck_noticed_earlier.
 
 (* non-vacuity: pipelined chunked POST with trailers + GET, cut inside the chunk-size line "1a;x=y":
    the first read returns normally leaving "1a;" buffered, tail_ok holds, the second read returns
@@ -169,10 +206,20 @@ Proof. exact (conj ex_concat (conj ex_two_reads (conj ex_five_reads ex_one_read)
 Print Assumptions C03_seg_example.
 
 (* ------------------------------------------------------------------ 5./6. reject direction *)
-(* The segmented run - normal or rejected - is observably the one-read run of the bytes it
-   consumed (same exception class, same messages with the same body bytes and marks), provided
-   the buffered chunk lines at the read boundaries pass the length re-check.  It cannot be extended
-   to the bytes after the failing read: see the refutations below. *)
+(* The segmented run - normal or rejected - against one read of the bytes it consumed, for every
+   segmentation: observably equal (same exception class, same messages with the same body bytes and
+   marks), or the rejection of an over-long chunk line was noticed earlier. *)
+Theorem C03_seg_consumed_obs : forall lim o segs s acc lo,
+  wf s -> segs <> [] ->
+  obs (run_segs lim o s segs acc lo) =
+  obs (run_segs lim o s [concat (consumed lim o s segs acc)] acc lo) \/
+  noticed_earlier lim (run_segs lim o s segs acc lo)
+                      (run_segs lim o s [concat (consumed lim o s segs acc)] acc lo).
+Proof. exact seg_consumed_full. Qed.
+Print Assumptions C03_seg_consumed_obs.
+
+(* with equality under boundaries_ok.  Neither statement extends to the bytes after the failing
+   read: see C03_reject_direction_refuted_bare_lf and C03_seg_reject_partial. *)
 Theorem C03_seg_consumed_obs_partial : forall lim o segs s acc lo,
   wf s -> segs <> [] -> boundaries_ok lim o s segs acc = true ->
   obs (run_segs lim o s segs acc lo) =
@@ -219,7 +266,8 @@ Print Assumptions C03_feed_reject_stable_partial.
 (* hence a rejected segmentation is rejected identically by one read of the WHOLE stream (bytes
    after the failing read included), if the failure is on a complete line and the buffered chunk
    lines at the read boundaries pass the length re-check.  Both hypotheses are needed:
-   witnesses (a), (b) violate the first, (c) the second (C03_seg_reject_hyps_needed). *)
+   witness (b) (bare LF) violates the first, (d) (C03_tail_recheck_noticed_earlier) the second
+   (C03_seg_reject_hyps_needed). *)
 Theorem C03_seg_reject_partial : forall lim o segs s acc lo s1 acc1 r1,
   wf s -> segs <> [] ->
   boundaries_ok lim o s segs acc = true ->
@@ -236,24 +284,29 @@ Proof. exact ex_rejected_hyps. Qed.
 Print Assumptions C03_seg_reject_example.
 
 Example C03_seg_reject_hyps_needed :
-  fail_complete lim_a [] init [wa_1; wa_2] [] = false /\
   fail_complete lim0 [] init [wb_1; wb_2] [] = false /\
-  boundaries_ok lim_c [] init [wc_1; wc_2] [] = false /\
-  boundaries_ok lim_a [] init [wa_1; wa_2] [] = true /\
   boundaries_ok lim0 [] init [wb_1; wb_2] [] = true /\
-  fail_complete lim_c [] init [wc_1; wc_2] [] = true.
+  boundaries_ok lim_c [] init [wd_1; wd_2] [] = false /\
+  fail_complete lim_c [] init [wd_1; wd_2] [] = true.
 Proof. exact ex_hyps_exclude. Qed.
 Print Assumptions C03_seg_reject_hyps_needed.
 
-(* (a) max_field_size = 10; header line "a:34567890" (exactly 10 bytes) with the read boundary
-   between its CR and LF: LineTooLong when split (the buffered-line length check counts the CR),
-   accepted in one read *)
-Theorem C03_reject_direction_refuted_cr_boundary :
-  exists lim segs e,
-    digest (run_segs lim [] init segs [] []) = (RErr e, []) /\
-    digest (run_segs lim [] init [concat segs] [] []) = (ROk [], [([71; 69; 84], [47], [], [], true, None)]).
-Proof. exact (ex_intro _ lim_a (ex_intro _ [wa_1; wa_2] (ex_intro _ ELineTooLong refute_cr_boundary))). Qed.
-Print Assumptions C03_reject_direction_refuted_cr_boundary.
+(* Repaired finding C03-cr-boundary-line-limit.  (a) max_field_size = 10, header line "a:34567890"
+   (exactly 10 bytes) with the read boundary between its CR and LF; (c) max_line_size = 20,
+   chunk-size line "1;eeeeeeeeeeeeeeeeee" (exactly 20 bytes) cut between its CR and LF (the state
+   between the reads buffers the 21 bytes including the CR and passes tail_ok): accepted, with the
+   same messages, split or in one read. *)
+Example C03_cr_boundary_fixed :
+  (digest (run_segs lim_a [] init [wa_1; wa_2] [] []) = (ROk [], [([71; 69; 84], [47], [], [], true, None)]) /\
+   digest (run_segs lim_a [] init [concat [wa_1; wa_2]] [] []) = (ROk [], [([71; 69; 84], [47], [], [], true, None)])) /\
+  (first_then lim_c wc_1 wc_2 =
+     (ROk [], true,
+      Some (PChunked CSize, [49; 59; 101; 101; 101; 101; 101; 101; 101; 101; 101; 101; 101; 101; 101; 101; 101; 101; 101; 101; 13]),
+      (ROk [], [([80; 79; 83; 84], [47], [120], [1], true, None)])) /\
+   digest (feed lim_c [] init (wc_1 ++ wc_2) []) = (ROk [], [([80; 79; 83; 84], [47], [120], [1], true, None)]) /\
+   digest (run_segs lim_c [] init [wc_1; wc_2] [] []) = (ROk [], [([80; 79; 83; 84], [47], [120], [1], true, None)])).
+Proof. exact (conj ex_cr_boundary_fixed ex_chunk_cr_boundary_fixed). Qed.
+Print Assumptions C03_cr_boundary_fixed.
 
 (* (b) a bare LF inside an incomplete header block: BadHttpMessage as soon as a read ends after it;
    one read of the same bytes returns normally (block still incomplete); once the block is
@@ -292,15 +345,6 @@ Example C03_bare_lf_doomed_example :
 Proof. exact ex_bare_lf_poisoned. Qed.
 Print Assumptions C03_bare_lf_doomed_example.
 
-(* (c) = C03_split_refuted_chunk_tail_recheck read as a segmentation: chunk-size line of exactly
-   max_line_size bytes cut between CR and LF *)
-Theorem C03_reject_direction_refuted_chunk_size_cr_boundary :
-  exists lim segs e,
-    fst (digest (run_segs lim [] init segs [] [])) = RErr e /\
-    digest (run_segs lim [] init [concat segs] [] []) = (ROk [], [([80; 79; 83; 84], [47], [120], [1], true, None)]).
-Proof. exact (ex_intro _ lim_c (ex_intro _ [wc_1; wc_2] (ex_intro _ ELineTooLong refute_chunk_size_cr_boundary))). Qed.
-Print Assumptions C03_reject_direction_refuted_chunk_size_cr_boundary.
-
 (* ====================================================================================================
    RESPONSE parser (HttpResponseParser, lax mode: SEP = LF, rstrip(CR), obs-fold, lax chunk sizes,
    optional CR skipping).  Model: Model/HttpResp.v (rfeed = HttpResponseParser.feed_data, rrun_segs = a
@@ -309,26 +353,27 @@ Print Assumptions C03_reject_direction_refuted_chunk_size_cr_boundary.
    Vocabulary (Proofs/HttpRespSeg.v, HttpRespChunk.v):
      rwf s             invariant of the parser state between two feed_data calls (C03_resp_wf_spelled)
      rtail_ok lim s    the buffered partial chunk-size / trailer line passes the length re-check of the next call
-     rclean_st s       the read did NOT end right after an optional CR that follows chunk data.  That is
-                       the only place left where the lax parser's CR skipping looks at the read boundary
-                       (the next read skips one more CR); in the model the state RChunked (RDataEnd true).
-                       (The second such place, the CR after the last-chunk line, was repaired in /repo
-                       eb945bb: nothing is skipped there any more, the model has no special state for it.)
-     rresume_st s y    rclean_st s, or the bytes y that follow the boundary are read the same way as without
-                       it: y is empty or does not start with CR
-     rboundaries_safe  rresume_st at every read boundary followed by a read, y = the rest of the stream
-     rboundaries_clean rclean_st at every such boundary (implies rboundaries_safe)
+     rrecheck_ok lim s y  rtail_ok lim s, or y (the bytes that follow) contains LF: the buffered line is
+                       completed, and since a complete line is measured exactly like a partial one (its last
+                       CR not counted: repair of C03-cr-boundary-line-limit) one read raises the same
+                       LineTooLong.  Excluded: only an over-long line that is still incomplete after y, which
+                       the split run rejects while one read is still waiting for its end: "rejection noticed
+                       earlier", which the property allows (every completion is rejected too).
+     rboundaries_ok    rrecheck_ok at every read boundary followed by a read, y = the bytes consumed after it
      robs, rprepend    as obs / prepend above
 
-   Summary.  The unrestricted ACCEPT-direction statements are FALSE of the faithful model
-   (C03_resp_split_accept_refuted_double_cr, C03_resp_seg_accept_refuted: witness replayed on the
-   implementation, open known finding C03-lax-double-cr).  With safe read boundaries (rresume_st:
-   everything except exactly that finding family, CR CR after chunk data with the read boundary inside
-   the CR run) they hold in full, for all configurations, states and streams (C03_resp_*_partial): same
-   final state, messages, fields, body bytes, chunk ends, eof / exception marks, unconsumed bytes.  The
-   boundary right after the last-chunk line ("0 CRLF" | "CR ...", former finding
-   C03-lax-cr-after-last-chunk, fixed) is inside the theorems (C03_resp_cr_after_last_chunk_fixed).
-   REJECT direction: additionally refuted by the CR/LF boundary at a line limit. *)
+   Summary.  The three places where this parser used to look at the read boundary were found with this
+   model and repaired in the code (CR after the last-chunk line: eb945bb; CR/LF boundary at a line limit;
+   CR CR LF after chunk data); the model follows the repaired code.  ACCEPT direction: proved in FULL, for
+   all configurations, states and streams, with no hypothesis on the read boundaries
+   (C03_resp_split_accept, C03_resp_seg_accept, C03_resp_seg_indep_accept): a segmentation whose reads
+   all return normally yields exactly the one-read result - same final state, messages, fields, body
+   bytes, chunk ends, eof / exception marks, unconsumed bytes; hence one-read rejection implies
+   rejection of every segmentation (C03_resp_seg_oneshot_reject).  Runs that END IN AN EXCEPTION: the
+   segmented run is observably the one-read run of the bytes it consumed (C03_resp_seg_consumed_obs_partial)
+   under rboundaries_ok, whose only excluded case is the allowed "rejection noticed earlier" above.
+   The former refutation witnesses are kept as positive examples (C03_resp_double_cr_fixed,
+   C03_resp_cr_after_last_chunk_fixed, C03_resp_cr_boundary_limit_fixed). *)
 From AV Require Import Lib.Utf8Decode Generated.HttpRespGen Model.HttpResp
   Proofs.HttpRespBase Proofs.HttpRespChunk Proofs.HttpRespSeg Proofs.HttpRespLimits Proofs.HttpRespEx.
 
@@ -354,7 +399,7 @@ Theorem C03_resp_wf_spelled : forall s, rwf s ->
     | RLength rem => 0 < rem /\ rctail p = [] /\ rtlines p = []
     | RUntilEof => rctail p = [] /\ rtlines p = []
     | RChunked (RData rem) => 0 < rem /\ rctail p = []
-    | RChunked (RDataEnd _) => rctail p = []
+    | RChunked RDataEnd => rctail p = [] \/ rctail p = [13]
     | RChunked _ => has_byte 10 (rctail p) = false
     end.
 Proof. exact rwf_spelled. Qed.
@@ -396,113 +441,76 @@ Proof. exact rchunked_loop_never_out_of_fuel. Qed.
 Print Assumptions C03_resp_chunked_loop_never_out_of_fuel.
 
 (* ------------------------------------------------------------------ R3. two reads *)
-(* the full-strength statement (the one proved for the request parser, C03_split_accept) is FALSE:
-   witness "... 3 CRLF abc CR" | "CR LF 0 CRLF CRLF": both reads return normally, one read of the
-   same bytes raises TransferEncodingError (CR CR LF after chunk data) *)
-Theorem C03_resp_split_accept_refuted_double_cr :
-  ~ (forall cfg s a b acc s1 acc1 lo1 s2 acc2 lo2,
-       rwf s ->
-       rfeed cfg s a acc = (s1, acc1, OOk lo1) ->
-       rfeed cfg s1 b acc1 = (s2, acc2, OOk lo2) ->
-       rfeed cfg s (a ++ b) acc = (s2, acc2, OOk (lo1 ++ lo2))).
-Proof. exact refute_split_double_cr. Qed.
-Print Assumptions C03_resp_split_accept_refuted_double_cr.
-
-(* the boundary state of the witness is the unclean one; the boundary right after the last-chunk line
-   ("... 0 CRLF" | "CR X: y CRLF", witness of the former finding C03-lax-cr-after-last-chunk) is an
-   ordinary trailers state since repair eb945bb, and split = one read there, state included *)
-Example C03_resp_split_witnesses :
-  (pkind_of (fst (fst r1_ab)) = Some (RChunked (RDataEnd true), [], []) /\ rclean_st (fst (fst r1_ab)) = false /\
-   pkind_of (fst (fst r1_cd)) = Some (RChunked RTrailers, [], []) /\ rclean_st (fst (fst r1_cd)) = true) /\
-  (pkind_of (fst (fst r2_cd)) = Some (RChunked RTrailers, [], [[13; 88; 58; 32; 121]]) /\
-   rfeed rcfg0 rinit (w_c ++ w_d) [] = (fst (fst r2_cd), snd (fst r2_cd), OOk [])).
-Proof. exact (conj witnesses_unclean cd_split_eq_one). Qed.
-Print Assumptions C03_resp_split_witnesses.
-
-(* what holds: with a safe boundary, the accept direction in full *)
-Theorem C03_resp_split_accept_partial : forall cfg s a b acc s1 acc1 lo1 s2 acc2 lo2,
+(* accept direction, full strength (the statement proved for the request parser, C03_split_accept): if
+   both reads return normally, one read of a ++ b returns normally with the same state, the same
+   accumulated messages and the concatenated unconsumed bytes *)
+Theorem C03_resp_split_accept : forall cfg s a b acc s1 acc1 lo1 s2 acc2 lo2,
   rwf s ->
   rfeed cfg s a acc = (s1, acc1, OOk lo1) ->
-  rresume_st s1 b = true ->
   rfeed cfg s1 b acc1 = (s2, acc2, OOk lo2) ->
   rfeed cfg s (a ++ b) acc = (s2, acc2, OOk (lo1 ++ lo2)).
 Proof. exact rfeed_split_accept. Qed.
-Print Assumptions C03_resp_split_accept_partial.
+Print Assumptions C03_resp_split_accept.
 
-(* including the second read's exceptions (needs the re-check of the buffered chunk line to pass) *)
+(* including the second read's exceptions: needs the re-check of the buffered chunk line to pass, or the
+   line to be completed by b (rrecheck_ok; the excluded case is rejection noticed earlier) *)
 Theorem C03_resp_split_partial : forall cfg s a b acc s1 acc1 lo1,
   rwf s ->
   rfeed cfg s a acc = (s1, acc1, OOk lo1) ->
-  rtail_ok (c_lim cfg) s1 = true -> rresume_st s1 b = true ->
+  rrecheck_ok (c_lim cfg) s1 b = true ->
   robs (rfeed cfg s (a ++ b) acc) =
   robs (let '(s2, acc2, r) := rfeed cfg s1 b acc1 in (s2, acc2, rprepend lo1 r)).
 Proof. exact rfeed_split. Qed.
 Print Assumptions C03_resp_split_partial.
 
-(* ------------------------------------------------------------------ R4. any segmentation *)
-Theorem C03_resp_seg_accept_refuted :
-  ~ (forall cfg segs s acc lo s' acc' lo',
-       rwf s -> segs <> [] ->
-       rrun_segs cfg s segs acc lo = (s', acc', OOk lo') ->
-       rrun_segs cfg s [concat segs] acc lo = (s', acc', OOk lo')).
-Proof. exact refute_seg_double_cr. Qed.
-Print Assumptions C03_resp_seg_accept_refuted.
+(* former finding C03-lax-double-cr (fixed): "... 3 CRLF abc CR" | "CR LF 0 CRLF CRLF" - the CR that ends the
+   first read stays buffered, and the split run raises the same TransferEncodingError as one read *)
+Example C03_resp_double_cr_fixed :
+  pkind_of (fst (fst (rfeed rcfg0 rinit w_a []))) = Some (RChunked RDataEnd, [13], []) /\
+  rboundaries_ok rcfg0 rinit [w_a; w_b] [] = true /\
+  rdigest (rrun_segs rcfg0 rinit [w_a; w_b] [] []) = (OErr ETransferEncoding, [(200, [97; 98; 99], [3], false, Some ETransferEncoding)]) /\
+  rdigest (rrun_segs rcfg0 rinit [concat [w_a; w_b]] [] []) = (OErr ETransferEncoding, [(200, [97; 98; 99], [3], false, Some ETransferEncoding)]).
+Proof. exact ex_double_cr_fixed. Qed.
+Print Assumptions C03_resp_double_cr_fixed.
 
-Theorem C03_resp_seg_accept_partial : forall cfg segs s acc lo s' acc' lo',
-  rwf s -> segs <> [] -> rboundaries_safe cfg s segs acc = true ->
+(* ------------------------------------------------------------------ R4. any segmentation *)
+Theorem C03_resp_seg_accept : forall cfg segs s acc lo s' acc' lo',
+  rwf s -> segs <> [] ->
   rrun_segs cfg s segs acc lo = (s', acc', OOk lo') ->
   rrun_segs cfg s [concat segs] acc lo = (s', acc', OOk lo').
 Proof. exact rseg_accept. Qed.
-Print Assumptions C03_resp_seg_accept_partial.
+Print Assumptions C03_resp_seg_accept.
 
-Theorem C03_resp_seg_indep_accept_partial : forall cfg segs1 segs2 s acc lo s1 acc1 lo1 s2 acc2 lo2,
+Theorem C03_resp_seg_indep_accept : forall cfg segs1 segs2 s acc lo s1 acc1 lo1 s2 acc2 lo2,
   rwf s -> segs1 <> [] -> segs2 <> [] -> concat segs1 = concat segs2 ->
-  rboundaries_safe cfg s segs1 acc = true -> rboundaries_safe cfg s segs2 acc = true ->
   rrun_segs cfg s segs1 acc lo = (s1, acc1, OOk lo1) ->
   rrun_segs cfg s segs2 acc lo = (s2, acc2, OOk lo2) ->
   (s1, acc1, lo1) = (s2, acc2, lo2).
 Proof. exact rseg_indep_accept. Qed.
-Print Assumptions C03_resp_seg_indep_accept_partial.
+Print Assumptions C03_resp_seg_indep_accept.
 
-(* one-read rejection => every segmentation with safe boundaries is rejected *)
-Theorem C03_resp_seg_oneshot_reject_partial : forall cfg segs s acc lo s1 acc1 e,
-  rwf s -> segs <> [] -> rboundaries_safe cfg s segs acc = true ->
+(* one-read rejection => every segmentation is rejected *)
+Theorem C03_resp_seg_oneshot_reject : forall cfg segs s acc lo s1 acc1 e,
+  rwf s -> segs <> [] ->
   rrun_segs cfg s [concat segs] acc lo = (s1, acc1, OErr e) ->
   forall s2 acc2 r2, rrun_segs cfg s segs acc lo = (s2, acc2, r2) -> forall l, r2 <> OOk l.
 Proof. exact rseg_oneshot_reject. Qed.
-Print Assumptions C03_resp_seg_oneshot_reject_partial.
+Print Assumptions C03_resp_seg_oneshot_reject.
 
-(* clean boundaries are safe, whatever follows *)
-Theorem C03_resp_clean_is_safe :
-  (forall s y, rclean_st s = true -> rresume_st s y = true) /\
-  (forall cfg segs s a, rboundaries_clean cfg s segs a = true -> rboundaries_safe cfg s segs a = true).
-Proof. exact (conj rclean_resume_st rboundaries_clean_safe). Qed.
-Print Assumptions C03_resp_clean_is_safe.
-
-(* non-vacuity, unclean but safe: "... 3 CRLF abc CR" | "LF 0 CRLF" | "CRLF" - the first boundary is in
-   the unclean state, the second right after the last-chunk line; three reads = one read *)
-Example C03_resp_seg_example_unclean_safe :
-  rboundaries_clean rcfg0 rinit [y_a; y_b; y_c] [] = false /\
-  rboundaries_safe rcfg0 rinit [y_a; y_b; y_c] [] = true /\
-  pkind_of (fst (fst (rfeed rcfg0 rinit y_a []))) = Some (RChunked (RDataEnd true), [], []) /\
+(* non-vacuity at the formerly special boundaries: "... 3 CRLF abc CR" | "LF 0 CRLF" | "CRLF" - the first
+   read ends between the CR and the LF after chunk data (the CR stays buffered), the second right after
+   the last-chunk line; three reads = one read, states included *)
+Example C03_resp_seg_example_cr_kept :
+  pkind_of (fst (fst (rfeed rcfg0 rinit y_a []))) = Some (RChunked RDataEnd, [13], []) /\
   rdigest (rrun_segs rcfg0 rinit [y_a; y_b; y_c] [] []) = (OOk [], [(200, [97; 98; 99], [3], true, None)]) /\
   rrun_segs rcfg0 rinit [concat [y_a; y_b; y_c]] [] [] = rrun_segs rcfg0 rinit [y_a; y_b; y_c] [] [].
-Proof. exact ex_safe_unclean_reads. Qed.
-Print Assumptions C03_resp_seg_example_unclean_safe.
-
-(* the hypothesis excludes exactly the witness of the refutations; after the last-chunk line every
-   continuation is safe *)
-Example C03_resp_witnesses_unsafe :
-  rresume_st (fst (fst r1_ab)) w_b = false /\ rboundaries_safe rcfg0 rinit [w_a; w_b] [] = false /\
-  rresume_st (fst (fst r1_cd)) w_d = true /\ rresume_st (fst (fst r1_cd)) w_d2 = true /\
-  rboundaries_safe rcfg0 rinit [w_c; w_d2] [] = true.
-Proof. exact witnesses_unsafe. Qed.
-Print Assumptions C03_resp_witnesses_unsafe.
+Proof. exact ex_cr_kept_reads. Qed.
+Print Assumptions C03_resp_seg_example_cr_kept.
 
 (* non-vacuity: LF-only head with a folded field, lax chunk-size line " 1a ;x=y" cut inside, 26 data
-   bytes, a pipelined 204: three reads with clean boundaries = one read (states included) *)
+   bytes, a pipelined 204: three reads = one read (states included) *)
 Example C03_resp_seg_example :
-  rboundaries_clean rcfg0 rinit [x_a; x_b; x_c] [] = true /\
+  rboundaries_ok rcfg0 rinit [x_a; x_b; x_c] [] = true /\
   pkind_of (fst (fst (rfeed rcfg0 rinit x_a []))) = Some (RChunked RSize, [32; 49; 97], []) /\
   rdigest (rrun_segs rcfg0 rinit [x_a; x_b; x_c] [] []) =
     (OOk [], [(200, [97; 98; 99; 100; 101; 102; 103; 104; 105; 106; 107; 108; 109; 110; 111; 112; 113; 114; 115; 116; 117; 118; 119; 120; 121; 122], [26], true, None);
@@ -516,8 +524,8 @@ Print Assumptions C03_resp_seg_example.
 (* ------------------------------------------------------------------ R5. reject direction *)
 (* The segmented run - normal or rejected - is observably the one-read run of the bytes it consumed
    (same exception class, same messages with the same body bytes and marks), provided that at every
-   read boundary the buffered chunk line passes the length re-check and the consumed bytes after it
-   are safe for the boundary state (rboundaries_ok = rtail_ok + rresume_st at each boundary). *)
+   read boundary the buffered chunk line passes the length re-check or is completed by the consumed
+   bytes after it (rboundaries_ok = rrecheck_ok at each boundary; excluded: rejection noticed earlier). *)
 Theorem C03_resp_seg_consumed_obs_partial : forall cfg segs s acc lo,
   rwf s -> segs <> [] -> rboundaries_ok cfg s segs acc = true ->
   robs (rrun_segs cfg s segs acc lo) =
@@ -535,24 +543,34 @@ Example C03_resp_seg_consumed_example :
 Proof. exact ex_rejected_consumed. Qed.
 Print Assumptions C03_resp_seg_consumed_example.
 
-(* former finding C03-lax-cr-after-last-chunk (fixed: /repo eb945bb): "0 CRLF" | "CR X: y CRLF CRLF" is now
-   rejected identically (InvalidHeader, same message marks) in one read and when split; the boundary is
-   clean, hence inside C03_resp_seg_accept_partial / C03_resp_seg_consumed_obs_partial *)
+(* former finding C03-lax-cr-after-last-chunk (fixed: /repo eb945bb): "0 CRLF" | "CR X: y CRLF CRLF" is
+   rejected identically (InvalidHeader, same message marks) in one read and when split *)
 Example C03_resp_cr_after_last_chunk_fixed :
-  rboundaries_clean rcfg0 rinit [w_c; w_d2] [] = true /\
+  rboundaries_ok rcfg0 rinit [w_c; w_d2] [] = true /\
   rdigest (rrun_segs rcfg0 rinit [w_c; w_d2] [] []) = (OErr EInvalidHeader, [(200, [97; 98; 99], [3], false, Some EInvalidHeader)]) /\
   rdigest (rrun_segs rcfg0 rinit [concat [w_c; w_d2]] [] []) = (OErr EInvalidHeader, [(200, [97; 98; 99], [3], false, Some EInvalidHeader)]).
 Proof. exact ex_cr_after_last_chunk_fixed. Qed.
 Print Assumptions C03_resp_cr_after_last_chunk_fixed.
 
-(* max_field_size = 10, field line "a:34567890" (10 bytes) cut between its CR and LF: LineTooLong when
-   split (the buffered-line length check counts the CR), accepted in one read *)
-Theorem C03_resp_reject_direction_refuted_cr_boundary :
-  exists cfg segs e,
-    rdigest (rrun_segs cfg rinit segs [] []) = (OErr e, []) /\
-    rdigest (rrun_segs cfg rinit [concat segs] [] []) = (OOk [], [(200, [], [], false, None)]).
-Proof. exact (ex_intro _ rcfg10 (ex_intro _ [w_e; w_f] (ex_intro _ ELineTooLong refute_reject_cr_boundary_limit))). Qed.
-Print Assumptions C03_resp_reject_direction_refuted_cr_boundary.
+(* former finding C03-cr-boundary-line-limit (fixed): max_field_size = 10, field line "a:34567890" (10 bytes)
+   cut between its CR and LF: the buffered 11 bytes are measured without the CR; split = one read *)
+Example C03_resp_cr_boundary_limit_fixed :
+  rboundaries_ok rcfg10 rinit [w_e; w_f] [] = true /\
+  lenN (rtail (fst (fst (rfeed rcfg10 rinit w_e [])))) = 11 /\
+  rdigest (rrun_segs rcfg10 rinit [w_e; w_f] [] []) = (OOk [], [(200, [], [], false, None)]) /\
+  rrun_segs rcfg10 rinit [concat [w_e; w_f]] [] [] = rrun_segs rcfg10 rinit [w_e; w_f] [] [].
+Proof. exact ex_cr_boundary_limit_fixed. Qed.
+Print Assumptions C03_resp_cr_boundary_limit_fixed.
+
+(* an over-long trailer line (33 bytes, max_field_size 30) buffered by the first read and completed by the
+   second: rtail_ok fails, rrecheck_ok / rboundaries_ok hold, split and one read raise the same LineTooLong *)
+Example C03_resp_recheck_monotone :
+  rtail_ok (c_lim rcfg30) (fst (fst (rfeed rcfg30 rinit z_a []))) = false /\
+  rboundaries_ok rcfg30 rinit [z_a; z_b] [] = true /\
+  rdigest (rrun_segs rcfg30 rinit [z_a; z_b] [] []) = (OErr ELineTooLong, [(200, [], [], false, Some ELineTooLong)]) /\
+  rdigest (rrun_segs rcfg30 rinit [z_a ++ z_b] [] []) = (OErr ELineTooLong, [(200, [], [], false, Some ELineTooLong)]).
+Proof. exact ex_recheck_monotone. Qed.
+Print Assumptions C03_resp_recheck_monotone.
 
 (* ------------------------------------------------------------------ R6. text-level quirks of the model *)
 (* "Transfer-Encoding: chun<KELVIN SIGN>ed" frames the body as chunked (lower() without isascii()) *)
